@@ -75,6 +75,9 @@ func (l *c19smLog) hook() error {
 	l.last = time.Now()
 	if !ok {
 		time.Sleep(2 * time.Millisecond) // a failing reload takes its time: submissions arrive meanwhile
+		if len(l.applies)%2 == 1 {
+			return &os.PathError{Op: "open", Path: "/var/run/frr_reloader.pid", Err: os.ErrNotExist}
+		}
 		return errors.New("injected reload failure")
 	}
 	return nil
